@@ -20,6 +20,7 @@ RULE = ("requests = method names (49 directed names incl. private / nested / dun
         "the member matrix; translator-rejected payloads; x server version {1.0,2.0}; client side through ServerProxy "
         "over a loopback transport. distinct = distinct (configuration, body); non-trivial = the reference "
         "classification produced an expected code and the probe log was compared with the expected invocations.")
+RULE += (" " + 'Also: translator-rejected payloads with escaped member names; positional arguments given as a tuple (descriptor or in-process request dictionary) compared with the same call given a list.')
 ASSUMPTIONS = [
     "argument mismatch = inspect.signature(f).bind(*args, **kwargs) fails for the registered callable",
     "the empty body may be answered -32700 or -32600 (it is no JSON text at all; the library reports 'no request data')",
